@@ -455,9 +455,13 @@ mat5_read_header (SF_PRIVATE *psf)
 skip_samplerate :
 	/*++++++++++++++++++++++++++++++++++++++++++++++++++*/
 
-	if (rows == 0 && cols == 0)
+	if (rows <= 0)
 	{	psf_log_printf (psf, "*** Error : zero channel count.\n") ;
 		return SFE_CHANNEL_COUNT_ZERO ;
+		}
+	else if (rows > SF_MAX_CHANNELS)
+	{	psf_log_printf (psf, "*** Error : channel count %d > SF_MAX_CHANNELS.\n", rows) ;
+		return SFE_CHANNEL_COUNT ;
 		} ;
 
 	psf->sf.channels	= rows ;
